@@ -56,12 +56,13 @@ class DictWorld(HistoryWorld):
             w, mask = self.subsets[run_index]
             return {'n': w, 'mask': mask, 'vk': ['u16', 'coins', 'cell'][run_index % 3], 'exh': True}
         n = rng.choice([1, 2, 3, 4, 5, 7, 8, 9, 16, 31, 32, 33, 64, 255, 256, 257, 267, 512, 1000, 1023, rng.randint(1, 1023)])
-        return {'n': n, 'vk': rng.choice(['u16', 'u16', 'coins', 'cell', 'i8', 'u1']), 'steps': rng.choice([4, 8, 16, 40])}
+        return {'n': n, 'vk': rng.choice(['u16', 'u16', 'coins', 'cell', 'i8', 'u1', 'addr', 'ref3']), 'steps': rng.choice([4, 8, 16, 40]), 'kser': rng.random() < 0.12}
 
     def new_state(self, ctx):
         st = St()
         st.n = ctx.cfg['n']
         st.vk = ctx.cfg['vk']
+        st.kser = bool(ctx.cfg.get('kser'))
         st.h = None
         st.model = {}
         st.order = []
@@ -71,8 +72,16 @@ class DictWorld(HistoryWorld):
 
     # ---- values ----
     def _mk_hashmap(self, st):
-        h = HashMap(st.n)
+        if st.kser:
+            # caller-supplied key serialiser: keys are handed over as 'k<decimal>' texts
+            h = HashMap(st.n, key_serializer=lambda k: int(k[1:]))
+        else:
+            h = HashMap(st.n)
         vk = st.vk
+        if vk == 'addr':
+            h.with_address_values()
+        elif vk == 'ref3':
+            h.value_serializer = lambda src, dest: dest.store_uint(src & 7, 3).store_ref(Builder().store_uint(src, 16).end_cell())
         if vk == 'u16':
             h.with_uint_values(16)
         elif vk == 'u1':
@@ -84,6 +93,8 @@ class DictWorld(HistoryWorld):
         return h
 
     def _lib_value(self, st, v):
+        if st.vk == 'addr':
+            return Address(((v & 0xFF) - 128, hashlib.sha256(b'%d' % v).digest()))
         if st.vk == 'cell':
             return Builder().store_uint(v & 0xFFFF, 16).end_cell()
         if st.vk == 'u1':
@@ -93,6 +104,10 @@ class DictWorld(HistoryWorld):
         return v
 
     def _norm(self, st, v):
+        if st.vk == 'addr':
+            return ('addr', (v & 0xFF) - 128, hashlib.sha256(b'%d' % v).digest())
+        if st.vk == 'ref3':
+            return (v & 7, v)
         if st.vk == 'cell':
             return v & 0xFFFF
         if st.vk == 'u1':
@@ -103,6 +118,10 @@ class DictWorld(HistoryWorld):
 
     def _vbits(self, st, v):
         vk = st.vk
+        if vk == 'addr':     # v is the normalised model value
+            return tlb.enc_addr_std(v[1], v[2], None)
+        if vk == 'ref3':
+            return tlb.enc_uint(v[0], 3)
         if vk in ('u16', 'cell'):
             return tlb.enc_uint(v, 16)
         if vk == 'u1':
@@ -113,6 +132,15 @@ class DictWorld(HistoryWorld):
 
     def _deser(self, st):
         vk = st.vk
+        if vk == 'addr':
+            def dz(s):
+                a = s.load_address()
+                want_wc = a.wc
+                # back to the 16-bit model value is impossible (hash); compare by encoding instead
+                return ('addr', a.wc, bytes(a.hash_part))
+            return dz
+        if vk == 'ref3':
+            return lambda s: (s.load_uint(3), s.load_ref().begin_parse().load_uint(16))
         if vk in ('u16', 'cell'):
             return lambda s: s.load_uint(16)
         if vk == 'u1':
@@ -209,6 +237,9 @@ class DictWorld(HistoryWorld):
         if st.h is None:
             self.op_new(st, op, ctx)
         karg, kw, mk = self._key_of(st, op)
+        if st.kser:
+            karg, kw = 'k%d' % mk, {}
+            ctx.probe('caller-supplied-key-serialiser')
         v = self._norm(st, op['v'])
         ok, r = call(st.h.set, karg, self._lib_value(st, op['v']), **kw)
         if not ok:
@@ -237,6 +268,10 @@ class DictWorld(HistoryWorld):
             key = '1' + bin(x)[2:].zfill(n)[:n]
         else:
             key = b'\x01' + bytes((n + 7) // 8)
+        if st.kser:
+            if not isinstance(key, int):
+                return
+            key = 'k%d' % key
         before = dict(st.h.map)
         ok, r = call(st.h.set, key, self._lib_value(st, op['v']))
         ctx.probe('rejected-key-' + kind)
@@ -270,7 +305,7 @@ class DictWorld(HistoryWorld):
         if not ok:
             # representable at all?
             try:
-                refhm.build_hashmap(model, n, lambda v: (self._vbits(st, v), ()))
+                refhm.build_hashmap(model, n, lambda v: (self._vbits(st, v), self._vrefs(st, v)))
             except RCellError:
                 ctx.count('carve-out:unrepresentable')
                 return
@@ -297,18 +332,40 @@ class DictWorld(HistoryWorld):
         random.Random(op['perm']).shuffle(keys)
         h2 = self._mk_hashmap(st)
         for k in keys:
-            h2.set(k, self._lib_value_norm(st, model[k]))
+            h2.set(('k%d' % k) if st.kser else k, self._lib_value_norm(st, model[k]))
         ok, c2 = call(h2.serialize)
         if not ok or c2.hash != cell.hash:
             self.V(ctx, 'insertion-order', 'serialize', 'keys-%s' % _kclass(len(model)), 'the same %d entries inserted in another order give a different cell' % len(model))
 
+    def _vrefs(self, st, v):
+        if st.vk == 'ref3':
+            from refmodel.rcell import RCell
+            return (RCell(tlb.enc_uint(v[1], 16)),)
+        return ()
+
     def _lib_value_norm(self, st, v):
+        if st.vk == 'addr':
+            return Address((v[1], v[2]))
+        if st.vk == 'ref3':
+            return v[1]
         if st.vk == 'cell':
             return Builder().store_uint(v, 16).end_cell()
         return v
 
     def _parse(self, st, cell, route, dz):
         n = st.n
+        if st.kser and route in ('parse', 'load_hashmap', 'load_dict', 'preload_dict'):
+            # caller-supplied key deserialiser, undone here for the comparison (dict order is kept)
+            kd = lambda bits: 'k%d' % int(bits, 2)
+            if route == 'parse':
+                r = HashMap.parse(cell.begin_parse(), n, kd, dz)
+            elif route == 'load_hashmap':
+                r = cell.begin_parse().load_hashmap(n, kd, dz)
+            elif route == 'load_dict':
+                r = Builder().store_dict(cell).store_ref(cell).end_cell().begin_parse().load_dict(n, kd, dz)
+            else:
+                r = Builder().store_dict(cell).end_cell().begin_parse().preload_dict(n, kd, dz)
+            return None if r is None else [(int(k[1:]), v) for k, v in r.items()]
         if route == 'parse':
             r = HashMap.parse(cell.begin_parse(), n, None, dz)
         elif route == 'load_hashmap':
